@@ -175,6 +175,14 @@ def run_case(case):
             counters["isolation_snapshots"] += len(before)
             touched = set()
             o = op["op"]
+            if "idx" in op:
+                if not recs:
+                    continue
+                op = dict(op, idx=op["idx"] % len(recs))
+                if "target" in op:
+                    op["target"] = op["target"] % len(recs)
+                    if op["target"] == op["idx"]:
+                        continue
             try:
                 if o == "new":
                     n = op["name"]
